@@ -125,6 +125,7 @@ func (p *parser) parseStatement() ast.Statement {
 		for _, value := range p.scope.labels {
 			if label == value {
 				p.error(identifier.Idx0(), "Label '%s' already exists", label)
+				break // once per statement, not once per enclosing duplicate (n nested duplicates gave n*n/2 errors)
 			}
 		}
 		var labelComments []*ast.Comment
